@@ -397,3 +397,114 @@ Proof. intros g d Hb. apply (good_nf _ _ _ _ (k_main_header_good g d Hb)). Qed.
 Theorem k_main_header_alloc : forall g d, bytes d ->
   Forall (fun a => a <= 1048576) (snd (k_main_header g (fuel_of d) d)).
 Proof. intros g d Hb. apply (good_allocs _ _ _ _ (k_main_header_good g d Hb)). Qed.
+
+(* ================= tile-parts ================= *)
+Lemma k_scan_marker_range : forall fuel d o, o <= k_scan_marker fuel d o /\ (o <= zlen d -> k_scan_marker fuel d o <= zlen d).
+Proof.
+  induction fuel as [|k IH]; intros d o; cbn [k_scan_marker]; [lia|].
+  destruct (Z.leb_spec (zlen d) o); [lia|].
+  destruct ((znth d o 0 =? 255) && (o + 1 <? zlen d) && negb (znth d (o + 1) 0 =? 0) && (79 <=? znth d (o + 1) 0)); [lia|].
+  destruct (IH d (o + 1)) as [A B]. split; [lia|]. intros _. apply B. lia.
+Qed.
+
+Lemma k_read_tile_data_good : forall g d o, 0 <= o <= zlen d -> good g KB (fun e => o <= e <= zlen d) (k_read_tile_data d o).
+Proof.
+  intros g d o Ho. unfold k_read_tile_data.
+  destruct (k_scan_marker_range (S (length d)) d o) as [A B]. specialize (B ltac:(lia)).
+  destruct (Z.ltb_spec o 0); [lia|]. destruct (Z.ltb_spec (k_scan_marker (S (length d)) d o) o); [lia|].
+  destruct (Z.ltb_spec (zlen d) (k_scan_marker (S (length d)) d o)); [lia|]. cbn [orb].
+  apply good_ret. lia.
+Qed.
+
+Lemma k_read_tile_data_len_good : forall g d ts psot o, 0 <= o <= zlen d -> 0 <= psot ->
+  good g KB (fun e => o <= e) (k_read_tile_data_len d ts psot o).
+Proof.
+  intros g d ts psot o Ho Hp. unfold k_read_tile_data_len.
+  assert (W : good g KB (fun e => o <= e) (k_read_tile_data d o)).
+  { eapply good_weaken; [apply k_read_tile_data_good; lia|lia|]. cbv beta; intros; lia. }
+  destruct (psot =? 0); [exact W|].
+  destruct (Z.ltb_spec psot (o - ts)); [exact W|].
+  destruct (zlen d <? o + (psot - (o - ts))); [exact W|].
+  destruct (Z.ltb_spec o 0); [lia|]. destruct (Z.ltb_spec (o + (psot - (o - ts))) o); [lia|]. cbn [orb].
+  apply good_ret. lia.
+Qed.
+
+Lemma k_parse_sot_good : forall g d o, bytes d -> 0 <= o ->
+  good g KB (fun x => let '(i, p, o') := x in o <= o' /\ o' <= zlen d /\ 0 <= p) (k_parse_sot d o).
+Proof.
+  intros. unfold k_parse_sot. rd16 len o1 E1.
+  destruct (negb (len =? 10)); [apply good_err|].
+  rd16 isot o2 E2. rd32 psot o3 E3.
+  eapply good_bind; [apply k_rd8_good; [assumption|lia]|]. intros [tp o4] (E4 & _). cbn [fst snd] in *. subst o4.
+  unfold k_rd8. destruct (Z.ltb_spec (zlen d) (o + 2 + 2 + 4 + 1 + 1)); [apply good_err|].
+  unfold bind, ret; cbn [fst snd app]. unfold good; cbn [fst snd].
+  split; [discriminate|]. split; [discriminate|]. split; [constructor|].
+  intros a Ha. inversion Ha; subst. lia.
+Qed.
+
+Lemma k_tile_segment_good : forall g cs ts m d o, bytes d -> 0 <= o ->
+  good g KB (fun x => o <= snd x) (k_tile_segment g cs ts m d o).
+Proof.
+  intros g cs ts m d o Hb Ho. unfold k_tile_segment.
+  destruct (m =? 82).
+  { eapply good_bind; [apply k_parse_cod_good; auto|]. intros o2 Ho2. apply good_ret. exact Ho2. }
+  destruct (m =? 83).
+  { eapply good_bind; [apply k_parse_coc_good; auto|]. intros [[c body] o2] Ho2. cbn [snd] in Ho2.
+    destruct (assoc (t_coc ts) c); [destruct (negb (zlist_eqb l body)); [apply good_err|]|]; apply good_ret; exact Ho2. }
+  destruct (m =? 92).
+  { eapply good_bind; [apply k_parse_qcd_good; auto|]. intros o2 Ho2. apply good_ret. exact Ho2. }
+  destruct (m =? 93).
+  { eapply good_bind; [apply k_parse_qcc_good; auto|]. intros [[c body] o2] Ho2. cbn [snd] in Ho2.
+    destruct (assoc (t_qcc ts) c); [destruct (negb (zlist_eqb l body)); [apply good_err|]|]; apply good_ret; exact Ho2. }
+  destruct (m =? 95).
+  { eapply good_bind; [apply k_parse_poc_good; auto|]. intros o2 Ho2. apply good_ret. exact Ho2. }
+  destruct (m =? 94).
+  { eapply good_bind; [apply k_parse_rgn_good; auto|]. intros o2 Ho2. apply good_ret. exact Ho2. }
+  destruct (m =? 116).
+  { eapply good_bind; [apply k_parse_mct_good; auto|]. intros o2 Ho2. apply good_ret. exact Ho2. }
+  destruct (m =? 117).
+  { eapply good_bind; [apply k_parse_mcc_good; auto|]. intros o2 Ho2. apply good_ret. exact Ho2. }
+  destruct (m =? 119).
+  { eapply good_bind; [apply k_parse_mco_good; auto|]. intros o2 Ho2. apply good_ret. exact Ho2. }
+  eapply good_bind; [apply k_skip_good; auto|]. intros o2 Ho2. apply good_ret. exact Ho2.
+Qed.
+
+(* the tile-part header loop ends right after a SOD marker that was read inside the data, so
+   readTileData's slice expression p.data[start:offset] has start <= len(data) *)
+Lemma k_tile_loop_good : forall g fuel cs ts d o, bytes d -> 0 <= o -> Z.max 0 (zlen d - o) < Z.of_nat fuel ->
+  good g KB (fun o' => o <= o' <= zlen d) (k_tile_loop g fuel cs ts d o).
+Proof.
+  intros g fuel. induction fuel as [|k IH]; intros cs ts d o Hb Ho Hf.
+  - exfalso. simpl in Hf. lia.
+  - cbn [k_tile_loop].
+    eapply good_bind; [apply k_rd16_good; auto|]. intros [marker o1] (E & Hm & Hlen). cbn [fst snd] in *. subst o1.
+    destruct (marker =? 65427); [apply good_ret; lia|].
+    eapply good_bind; [apply k_tile_segment_good; [auto|lia]|]. intros [ts' o2] Ho2. cbn [fst snd] in *.
+    eapply good_weaken; [apply IH; [auto|lia|lia]|apply Z.le_refl|]. cbv beta; intros; lia.
+Qed.
+
+Lemma k_parse_tile_good : forall g cs d o, bytes d -> 0 <= o ->
+  good g KB (fun x => o + 2 <= snd x) (k_parse_tile g (fuel_of d) cs d o).
+Proof.
+  intros g cs d o Hb Ho. unfold k_parse_tile.
+  rd16 mk o1 E1. destruct (negb (mk =? 65424)); [apply good_err|].
+  eapply good_bind; [apply k_parse_sot_good; [auto|lia]|]. intros [[isot psot] o2] (A & B & C).
+  eapply good_bind.
+  { apply k_tile_loop_good; [auto|lia|]. unfold fuel_of, zlen. lia. }
+  intros o3 Ho3. cbv beta in Ho3.
+  eapply good_bind; [apply k_read_tile_data_len_good; lia|]. intros o4 Ho4. cbv beta in Ho4.
+  apply good_ret. cbn [snd]. lia.
+Qed.
+
+(* a tile-part (SOT, tile-part header, data) is parsed without panic (with the QCD length check),
+   within length+2 loop iterations, with small allocation requests, and consumes at least 2 bytes *)
+Theorem k_parse_tile_no_panic : forall cs d o, bytes d -> 0 <= o -> fst (k_parse_tile true (fuel_of d) cs d o) <> Panic.
+Proof. intros cs d o Hb Ho. apply (good_np _ _ _ (k_parse_tile_good true cs d o Hb Ho)). Qed.
+Theorem k_parse_tile_fuel : forall g cs d o, bytes d -> 0 <= o -> fst (k_parse_tile g (fuel_of d) cs d o) <> OutOfFuel.
+Proof. intros g cs d o Hb Ho. apply (good_nf _ _ _ _ (k_parse_tile_good g cs d o Hb Ho)). Qed.
+Theorem k_parse_tile_progress : forall g cs d o i o', bytes d -> 0 <= o ->
+  fst (k_parse_tile g (fuel_of d) cs d o) = Ok (i, o') -> o + 2 <= o'.
+Proof.
+  intros g cs d o i o' Hb Ho E. destruct (k_parse_tile_good g cs d o Hb Ho) as (_ & _ & _ & P).
+  apply (P (i, o') E).
+Qed.
